@@ -779,6 +779,8 @@ func C04() *engine.Check {
 			longChainSub("C04"),
 			c04EpochSub(),
 			c04AcrossExpirySub(),
+			authConcSub("C04"),
+			concRaceSub("C04"),
 		},
 		Assumptions: []string{
 			"chain-level instants are injected through invocation.VerifTimeBoundAt (build tag verif), a one-line export of verifyTimeBoundAt; the real-clock sub-check covers the wiring of the time stage into ExecutionAllowed with bounds 10 years away from now",
